@@ -455,7 +455,10 @@ func (e *Evaluator) callFunction(exp *ExprCall, fn *Cell, args []*Value) (*Cell,
 			retVal = nil
 		}
 
-		if retVal != nil {
+		// a null result is a plain null: a placeholder for a missing member must
+		// not leave the function that read it, or a store below the call's
+		// result would create that member in the caller's object
+		if retVal != nil && retVal.Tag != ValueNil {
 			return NewCell(*retVal), nil
 		}
 		return NewCell(NewValue(nil)), nil
